@@ -60,6 +60,7 @@ type simClock struct {
 	tick    time.Duration
 	zone    *time.Location
 	maxStep int64
+	minStep int64
 	covered int64
 	reads   int
 }
@@ -112,7 +113,7 @@ func newSimClock(w *W) *simClock {
 	if tick <= 0 {
 		tick = 1
 	}
-	return &simClock{w: w, now: start, tick: tick, zone: zoneOf(c.Zone), maxStep: c.MaxStep}
+	return &simClock{w: w, now: start, tick: tick, zone: zoneOf(c.Zone), maxStep: c.MaxStep, minStep: c.MinStep}
 }
 
 // Now is the only clock logg reads in a simulated world.
@@ -128,8 +129,14 @@ func (c *simClock) Now() time.Time {
 	}
 	t = t.In(c.zone)
 	c.reads++
-	if c.maxStep > 0 {
-		step := int64(c.w.tClock.draw(int(c.maxStep)+1, nil))
+	{
+		step := c.minStep
+		if step < 1 {
+			step = 1 // a real clock never stands still between two reads; coarse ticks are modelled by truncation
+		}
+		if c.maxStep > c.minStep {
+			step += int64(c.w.tClock.draw(int(c.maxStep-c.minStep)+1, nil))
+		}
 		c.now = c.now.Add(time.Duration(step))
 		c.covered += step
 	}
